@@ -2,6 +2,7 @@ pub mod c01;
 pub mod c01_scaling;
 pub mod c02;
 pub mod c03;
+pub mod c04;
 pub mod c05;
 pub mod c06;
 pub mod c07;
@@ -26,6 +27,7 @@ pub fn dispatch_run(id: &str, run: &mut Run) -> bool {
         "C01" => c01::run(run),
         "C02" => c02::run(run),
         "C03" => c03::run(run),
+        "C04" => c04::run(run),
         "C05" => c05::run(run),
         "C06" => c06::run(run),
         "C07" => c07::run(run),
@@ -49,6 +51,7 @@ pub fn dispatch_replay(id: &str, check: &str, case: Value, run: &mut Run) -> Res
         "C01" => c01::replay(check, case, run),
         "C02" => c02::replay(check, case, run),
         "C03" => c03::replay(check, case, run),
+        "C04" => c04::replay(check, case, run),
         "C05" => c05::replay(check, case, run),
         "C06" => c06::replay(check, case, run),
         "C07" => c07::replay(check, case, run),
